@@ -436,6 +436,22 @@ def canon(fn: ast.FunctionDef, expr: ast.AST | None, keep: Iterable[str] = ()) -
     return unparse(inline(expr, env))
 
 
+def canonical_statements(fn: ast.FunctionDef, keep: Iterable[str] = ()) -> list[str]:
+    """the function's top-level statements as text, with single-assignment locals substituted into their users and their own binding
+    statements (and the docstring) left out: `v = x.a; self.t[k] = v; self.f(k, v)` reads `self.t[k] = x.a`, `self.f(k, x.a)`"""
+    env = {k: v for k, v in single_assignments(fn).items() if k not in set(keep)}
+    out: list[str] = []
+    for st in fn.body:
+        if isinstance(st, ast.Expr) and isinstance(st.value, ast.Constant) and isinstance(st.value.value, str):
+            continue
+        if isinstance(st, ast.Assign) and len(st.targets) == 1 and isinstance(st.targets[0], ast.Name) and st.targets[0].id in env:
+            continue
+        if isinstance(st, ast.AnnAssign) and isinstance(st.target, ast.Name) and st.target.id in env:
+            continue
+        out.append(unparse(inline(st, env)))
+    return out
+
+
 def canonical_subscripts(fn: ast.FunctionDef) -> list[str]:
     """text of every subscript read in the function with single-assignment locals (and plain copies) inlined, so that
     `m = T[a]; e = m[b]` reads as `T[a][b]` and `k = self.x; T[k]` as `T[self.x]`"""
